@@ -1445,6 +1445,10 @@ class QuicConnection:
 
         stream = self._streams.get(stream_id, None)
         if stream is None:
+            if stream_id in self._streams_finished:
+                # the stream was created, but its state was since discarded
+                raise ValueError("Cannot send data on a finished stream")
+
             # check initiator
             if stream_is_client_initiated(stream_id) != self._is_client:
                 raise ValueError("Cannot send data on unknown peer-initiated stream")
